@@ -385,7 +385,7 @@ func runC02(c *Ctx) error {
 // expandSlice_no_dollar; values holding '$' are left out here, C16 owns them).  Together with the metadata family
 // (the package states what the packager was handed) this is "the package states what the configuration states".
 func c02YAMLRoute(c *Ctx, r *rng.R) error {
-	fam := c.Rep.Family("yaml-route", "random metadata (generator of the metadata family, plus format-specific lists that differ between deb and ipk) written as a YAML document, nfpm.Parse, Config.Get(format) x 5 formats: every leaf of the Info the packager is handed vs the leaf the document states (after WithDefaults; expandable relation lists trimmed, empty items dropped); one evaluation per (document, format); non-trivial = the document parses")
+	fam := c.Rep.Family("yaml-route", "random metadata (generator of the metadata family, plus format-specific lists that differ between deb and ipk; every second document with an override block per format that restates `depends` only) written as a YAML document, nfpm.Parse, Config.Get(format) x 5 formats: every leaf of the Info the packager is handed vs the leaf the document states (after WithDefaults; expandable relation lists trimmed, empty items dropped); one evaluation per (document, format); non-trivial = the document parses")
 	trim := func(l []string) []string {
 		var out []string
 		for _, x := range l {
@@ -419,7 +419,17 @@ func c02YAMLRoute(c *Ctx, r *rng.R) error {
 		if dollar {
 			continue
 		}
-		doc, err := yaml.Marshal(nfpm.Config{Info: *stated})
+		// every second document carries an override block per format that restates one list only: everything the block
+		// does not mention must come through from the base settings
+		withOverrides := i%2 == 1
+		outCfg := nfpm.Config{Info: *stated}
+		if withOverrides {
+			outCfg.Overrides = map[string]*nfpm.Overridables{}
+			for _, f := range Formats {
+				outCfg.Overrides[f] = &nfpm.Overridables{Depends: []string{"only-for-" + f}}
+			}
+		}
+		doc, err := yaml.Marshal(outCfg)
 		if err != nil {
 			return fmt.Errorf("yaml-route: marshal: %w", err)
 		}
@@ -440,6 +450,9 @@ func c02YAMLRoute(c *Ctx, r *rng.R) error {
 			want := mk()
 			want.Replaces, want.Provides, want.Depends = trim(want.Replaces), trim(want.Provides), trim(want.Depends)
 			want.Recommends, want.Suggests, want.Conflicts = trim(want.Recommends), trim(want.Suggests), trim(want.Conflicts)
+			if withOverrides {
+				want.Depends = []string{"only-for-" + f}
+			}
 			nfpm.WithDefaults(want)
 			fam.Eval(key, true)
 			fam.Count(f)
